@@ -329,7 +329,8 @@ func init() {
 			}
 			info, ok := InvBy["e_dnsname_not_valid_tld"]
 			if !ok {
-				c.R.Inconcl("e_dnsname_not_valid_tld is not registered")
+				// the tree under test does not register the TLD lint (any more): clause (c) has nothing to judge
+				c.R.Distinct("tld_lint_not_registered", "e_dnsname_not_valid_tld")
 				return
 			}
 			g := lint.GlobalRegistry()
@@ -464,8 +465,9 @@ func init() {
 			if r.SetSize("table_entries") < 1000 {
 				gates = append(gates, "table hook returned fewer than 1000 entries")
 			}
-			for _, k := range []string{"pass", "error", "NE"} {
-				if r.Sets["lint_outcomes"][k] == 0 {
+			ev.Coverage["tld_lint_not_registered"] = r.SetSize("tld_lint_not_registered") > 0
+			for _, k := range []string{"pass", "error"} { // NE is listed in the evidence; whether it can occur depends on the effective date the lint carries today
+				if r.Sets["lint_outcomes"][k] == 0 && r.SetSize("tld_lint_not_registered") == 0 {
 					gates = append(gates, "lint outcome never expected: "+k)
 				}
 			}
